@@ -28,7 +28,9 @@ RULE = ("part 1 exhaustive over scenarios = (services in the configuration, Comp
         "tunnel/unified configurations all connecting (both TXT variants) and with every single failing connect, five real "
         "devices as pyatv's own scanner sees them x every set of their protocols left enabled, plus seeded random ones; the device object comes from the real pyatv.connect() and a connected protocol takes over through the "
         "core.takeover wired there; x {no holder, each of 5 holders} x every member with default-style arguments and with "
-        "every other value of its enum-typed / optional parameters (from the signatures); then again after each connected "
+        "every other value of its enum-typed / optional parameters, strings of several shapes (http/https/file URL, path, "
+        "identifier, empty) for string parameters and an extra keyword for **kwargs (from the signatures) — any recorder "
+        "firing other than the winner's same-named member is a misroute; then again after each connected "
         "protocol published volume/output devices/focus/play state with exactly the published values as arguments (twice, "
         "and under a takeover), and again while the implementations of one connected protocol raise NotSupportedError / "
         "ProtocolError when called (the error must reach the caller, nobody else may execute the call); Companion's REAL "
